@@ -682,6 +682,10 @@ func TestVerifKeys(t *testing.T) {
 			vkProtoCase(rng, out, idx, report)
 			continue
 		}
+		if idx%16 == 7 {
+			vkSameNameCase(rng, out, idx, report)
+			continue
+		}
 		g := &vkGen{rng: rng}
 		var top *vkType
 		switch rng.Intn(10) {
@@ -833,3 +837,97 @@ func vkProtoCase(rng *vRand, out *vOut, idx int64, report func(int64, string, st
 }
 
 var _ = testing.Verbose
+
+// Distinct message types that print the same name (reflect.Type.String() is
+// "grpcgcp.Msg" for each of these function-local types) but have different
+// layouts: the result must depend on the value's actual type only.
+func vkLocalA(k string) interface{} {
+	type Msg struct {
+		Key string
+		Num int
+	}
+	return &Msg{Key: k, Num: 1}
+}
+func vkLocalB(k string) interface{} {
+	type Msg struct {
+		Num int
+		Key string
+	}
+	return &Msg{Num: 2, Key: k}
+}
+func vkLocalC(k string) interface{} {
+	type Msg struct {
+		Other string
+		Name  string
+		Key   []string
+	}
+	return &Msg{Other: "o", Name: "n-" + k, Key: []string{k, k + "2"}}
+}
+func vkLocalD(k string) interface{} {
+	type Inner struct{ Key string }
+	type Msg struct {
+		Name  int
+		Inner *Inner
+	}
+	return &Msg{Name: 3, Inner: &Inner{Key: k}}
+}
+func vkLocalE(k string) interface{} {
+	type Inner struct {
+		Pad string
+		Key string
+	}
+	type Msg struct {
+		Inner *Inner
+		Name  string
+	}
+	return &Msg{Inner: &Inner{Pad: "p", Key: k}, Name: "e-" + k}
+}
+
+func vkSameNameCase(rng *vRand, out *vOut, idx int64, report func(int64, string, string, string, []string)) {
+	k := fmt.Sprintf("k%d", rng.Intn(100))
+	type probe struct {
+		name string
+		msg  interface{}
+		loc  string
+		keys []string
+		err  bool
+	}
+	all := []probe{
+		{"A", vkLocalA(k), "key", []string{k}, false},
+		{"B", vkLocalB(k), "key", []string{k}, false},
+		{"C", vkLocalC(k), "key", []string{k, k + "2"}, false},
+		{"A", vkLocalA(k), "num", nil, true},
+		{"B", vkLocalB(k), "num", nil, true},
+		{"C", vkLocalC(k), "name", []string{"n-" + k}, false},
+		{"D", vkLocalD(k), "name", nil, true},
+		{"E", vkLocalE(k), "name", []string{"e-" + k}, false},
+		{"D", vkLocalD(k), "inner.key", []string{k}, false},
+		{"E", vkLocalE(k), "inner.key", []string{k}, false},
+		{"A", vkLocalA(k), "name", nil, true},
+		{"C", vkLocalC(k), "num", nil, true},
+	}
+	// random order: whichever type is seen first must not influence the others
+	for i := len(all) - 1; i > 0; i-- {
+		j := rng.Intn(i + 1)
+		all[i], all[j] = all[j], all[i]
+	}
+	for _, p := range all {
+		res := vkCall(p.loc, p.msg)
+		desc := []string{fmt.Sprintf("message: local type Msg variant %s (%T) %+v", p.name, p.msg, p.msg), "locator: " + p.loc}
+		out.hit("C11.same-name-types")
+		if res.panicked {
+			report(idx, "C11.panic", vPanicKind(res.pval)+"@"+vPanicSite(res.pstack, "grpcgcp."), fmt.Sprintf("getAffinityKeysFromMessage panicked: %v", res.pval), desc)
+			return
+		}
+		if p.err {
+			if res.err == nil {
+				report(idx, "C11.error-expected", "same-name-types", fmt.Sprintf("got keys=%q without error for variant %s, %s", res.keys, p.name, p.loc), desc)
+				return
+			}
+		} else if res.err != nil || !vkEqual(res.keys, p.keys) {
+			report(idx, "C11.keys", "same-name-types", fmt.Sprintf("variant %s, locator %s: got keys=%q err=%v, want %q", p.name, p.loc, res.keys, res.err, p.keys), desc)
+			return
+		}
+	}
+	out.nontrivial(vHashStrings([]string{"same-name", k}))
+}
